@@ -161,6 +161,12 @@ def is_raw_dataclass(cls: type) -> bool:
         dataclasses.is_dataclass(cls)
         and type(cls) is type  # no metaclass
         and "__slots__" not in cls.__dict__
+        # fields stored elsewhere than in the instance __dict__ (slots of a base
+        # class, descriptors) are set by __init__ only
+        and not any(
+            hasattr(inspect.getattr_static(cls, f.name, None), "__set__")
+            for f in dataclasses.fields(cls)
+        )
         and not hasattr(cls, "__post_init__")
         and all(f.init for f in dataclasses.fields(cls))
         and getattr(cls, dataclasses._PARAMS).init  # type: ignore
